@@ -21,7 +21,7 @@ ID = 'C14'
 TITLE = 'Even-point insertion returns the documented candidates, height-filtered'
 RULE = ('cases = (curve, reduction, knee subset, tx, ty, extremes), full product below the bound; non-trivial = at least one evenly spaced point was inserted '
         '(some retained segment / knee gap qualified)')
-ASSUMPTIONS = ['curves have non-constant x and y', 'w within 1e-9 of 2tx, h within 1e-9 of ty, or w/2tx within 1e-9 of an integer are ambiguous (every admissible output accepted)']
+ASSUMPTIONS = ['curves have non-constant x and y', 'w within 1e-9 of 2tx or h within 1e-9 of ty are ambiguous; ceil(w/2tx) is ambiguous only when five IEEE evaluation orders and the exact rational quotient disagree']
 BOUNDS = {'quick': {'curves': 'A12 n=3,4 complete; G12Y013 n=5 complete; G12Y013 n=4 and Y013 n=5 re-embedded with y*2^-40, x*2^-40, (x,y)*2^30', 'reductions': 'all 2^(n-2)', 'knee subsets': 'size<=2 positions (even), size 1..2 (knees-as-markers)', '(tx,ty)': 3, 'extremes': 2},
           'thorough': {'curves': 'A n<=4, A12 n=5, A1 n=6', 'reductions': 'all', 'knee subsets': 'all positions (even), size 1..3 (markers)'}}
 TECHNIQUE = 'bounded-exhaustive enumeration of curves x all reductions x knee subsets x thresholds on the real functions against a reference that enumerates every admissible output under threshold ambiguity'
@@ -72,10 +72,10 @@ def seg_options(xs, ys, L, R, dx, dy, tx, ty):
         if not q:
             out.append([])
             continue
-        r = w / thr
-        counts = {int(math.ceil(r))}
-        if near(r, round(r)):
-            counts |= {int(round(r)), int(round(r)) + 1}
+        # ceil(w / 2tx): decisive when all plausible IEEE evaluation orders and the exact rational quotient agree
+        wx = abs(Fraction(xs[R]) - Fraction(xs[L])) / Fraction(dx)
+        counts = {int(math.ceil(v)) for v in (w / thr, (w / 2.0) / tx, w / tx / 2.0, w * (1.0 / thr), 0.5 * w / tx)}
+        counts.add(int(math.ceil(wx / (2 * Fraction(tx)))))
         for c in sorted(c for c in counts if c >= 1):
             inc = int((R - L) / c)
             out.append([L + j * inc for j in range(1, c + 1)])
